@@ -4,7 +4,7 @@ CONSTANTS
   Lens = {1, 2, 3, 4, 5, 6}
   OneAxisMax = 13
   LargeN = {169, 170, 171, 172, 200, 400, 1000, 1028, 1029, 1030, 1200, 2000, 4000}
-  BandN = 168..176
+  BandN = {168, 169, 170, 171, 172, 173, 174, 175, 176}
   AB_WrongStep = FALSE
   FromSet <- MCFromSet
   LargeSet <- MCLargeSet
